@@ -307,7 +307,7 @@ func StartBystander(e *Env) (*Bystander, error) {
 	if ft, d, err := rawFrame(cons, 60*time.Second); err != nil || ft != 0 || string(d) != "OK" {
 		return nil, fmt.Errorf("bystander SUB: %v %d %q", err, ft, d)
 	}
-	cons.Write([]byte("RDY 20\n"))
+	cons.Write([]byte(fmt.Sprintf("RDY %d\n", min64(20, e.L.MaxRdy))))
 	prod, err := dialV2(e.TCP)
 	if err != nil {
 		return nil, err
